@@ -15,6 +15,7 @@ LEVEL = 'exploration'
 
 SEGMENTATIONS = ('ask', 'dribble', 'small', 'mtu', 'header', 'few', 'whole')
 C04_CHANNELS = [c for c in workload.CHANNELS if c.in_c04]
+C04_STREAM_CHANNELS = [c for c in C04_CHANNELS if not c.single_unit]
 
 RULE = (
     'one evaluation = one simulated connection: 1-8 records composed by the library (or one TLS handshake '
@@ -140,7 +141,7 @@ def _generate(rng, index, tier, extra):  # pylint: disable=unused-argument
         return {'kind': 'tls2', 'hs': [m.hex() for m in hs], 'frag_cuts': frag_cuts, 'seg': seg, 'cuts': cuts,
                 'policy': rng.choice(('strict', 'eager')), 'policy2': rng.choice(('strict', 'eager')),
                 'sender_discards': discards}
-    channel = rng.choice(C04_CHANNELS)
+    channel = rng.choice(C04_STREAM_CHANNELS)
     records = [channel.make(rng, discards) for _ in range(rng.choice((1, 1, 2, 3, 4, 8)))]
     seg = rng.choice(SEGMENTATIONS)
     cuts = 'ask' if seg == 'ask' else _cuts(rng, seg, _bounds(records), channel.framer)
